@@ -106,6 +106,23 @@ func c02Faults(d *vCtx) error {
 					}
 				}
 			}
+			// whole data lines dropped / delivered twice (every base): the first block, and the last blocks with the
+			// end-of-data marker -- the stream then ends short or long with every frame still well formed
+			if !bigResume {
+				var datas []e2eLayoutMsg
+				for _, m := range w {
+					if m.Typ == "DATA" {
+						datas = append(datas, m)
+					}
+				}
+				for i, m := range datas {
+					if i == 0 || i >= len(datas)-3 || (thorough && i%3 == 1) {
+						for _, k := range []string{"linedel", "linedup"} {
+							jobs = append(jobs, c02Job{bi, []e2eFault{{Dir: m.Dir, Off: m.Off, Kind: k}}, "dataline"})
+						}
+					}
+				}
+			}
 			if bigResume {
 				continue // 25 MiB per run: no per-byte matrix here
 			}
